@@ -58,6 +58,91 @@ def valid(gtype, c):
     return False
 
 
+DEPTH = {"TimeStamp": 0, "TimeInterval": 1, "Point": 1, "BoundingBox": 1, "LineString": 2, "MultiPoint": 2,
+         "Polygon": 3, "MultiLineString": 3, "MultiPolygon": 4}
+"""Declared nesting depth of the coordinates of each type (0 = a bare number)."""
+
+
+def nesting_ok(gtype, c):
+    """Is c nested uniformly to exactly the depth the type declares, with numeric leaves?
+    (List lengths are not judged: this is the part of the shape a static type check sees.)"""
+    def rec(x, d):
+        if d == 0:
+            return _num(x)
+        if not isinstance(x, (list, tuple)):
+            return False
+        for y in x:
+            if not rec(y, d - 1):
+                return False
+        return True
+    return rec(c, DEPTH[gtype])
+
+
+def why_invalid(gtype, c):
+    """Name of the first rule of the property text that c breaks for gtype, or None when c is valid.
+
+    Written separately from ``valid`` (rule by rule instead of as one predicate); the two must agree:
+    ``valid(t, c) == (why_invalid(t, c) is None)``.  Rules are tried in the order
+    nesting, count (arity / minimum number of members), time<0, freq<0, freq>max, order.
+    """
+    if not nesting_ok(gtype, c):
+        return "nesting"
+    if gtype == "TimeStamp":
+        return "time<0" if c < 0 else None
+    if gtype == "TimeInterval":
+        if len(c) != 2:
+            return "count"
+        if c[0] < 0 or c[1] < 0:
+            return "time<0"
+        return "order" if c[0] > c[1] else None
+    if gtype == "BoundingBox":
+        if len(c) != 4:
+            return "count"
+        groups = [([[c[0], c[1]], [c[2], c[3]]], 2)]
+    elif gtype == "Point":
+        groups = [([c], 1)]
+    elif gtype == "LineString":
+        groups = [(c, 2)]
+    elif gtype == "MultiPoint":
+        groups = [(c, 1)]
+    elif gtype == "Polygon":
+        if len(c) < 1:
+            return "count"
+        groups = [(ring, 3) for ring in c]
+    elif gtype == "MultiLineString":
+        if len(c) < 1:
+            return "count"
+        groups = [(line, 2) for line in c]
+    elif gtype == "MultiPolygon":
+        if len(c) < 1 or any(len(poly) < 1 for poly in c):
+            return "count"
+        groups = [(ring, 3) for poly in c for ring in poly]
+    else:
+        return "type"
+    for pts, least in groups:
+        if len(pts) < least or any(len(p) != 2 for p in pts):
+            return "count"
+    allpts = [p for pts, _ in groups for p in pts]
+    if any(p[0] < 0 for p in allpts):
+        return "time<0"
+    if any(p[1] < 0 for p in allpts):
+        return "freq<0"
+    if any(p[1] > MAX_FREQUENCY for p in allpts):
+        return "freq>max"
+    if gtype == "MultiLineString" and any(not (line[0][0] < line[-1][0]) for line in c):
+        return "order"
+    return None
+
+
+def is_normal(gtype, c):
+    """Is a valid coordinate structure already in normal form (stated directly, not via ``normal``)?"""
+    if gtype == "BoundingBox":
+        return c[0] <= c[2] and c[1] <= c[3]
+    if gtype == "LineString":
+        return c[0][0] <= c[-1][0]
+    return True
+
+
 def _aslist(c):
     if isinstance(c, (list, tuple)):
         return [_aslist(x) for x in c]
